@@ -14,22 +14,7 @@ theorem read7_write7 (v : Int) (h : isInt32 v) : Reads read7 (bytes7 v) v := rea
 /-- ... and it occupies exactly the number of bytes the writer accounts for in byte-size
     headers (`sbdf_get_7bitpacked_len`), between one and five. -/
 theorem bytes7_length (v : Int) (h0 : 0 ≤ v) (h1 : v < 2147483648) :
-    (bytes7 v).length = len7 v ∧ 1 ≤ len7 v ∧ len7 v ≤ 5 := by
-  have e : ofInt32 v = v.toNat := by unfold ofInt32; omega
-  unfold bytes7 len7
-  rw [e]
-  generalize hn : v.toNat = n
-  have hv : v = (n : Int) := by omega
-  subst hv
-  simp only [write7Aux]
-  refine ⟨?_, ?_, ?_⟩
-  · repeat' split
-    all_goals simp
-    all_goals omega
-  · repeat' split
-    all_goals omega
-  · repeat' split
-    all_goals omega
+    (bytes7 v).length = len7 v ∧ 1 ≤ len7 v ∧ len7 v ≤ 5 := Sbdf.bytes7_length' v h0 h1
 
 /-- groups are least significant first; the continuation bit is set on all but the last byte -/
 theorem bytes7_groups (f val : Nat) (hv : val < 128 ^ f) (i : Nat)
